@@ -188,6 +188,13 @@ def metadata_cases(backend: str, s) -> List[Tuple[str, str]]:
                 other = "cms_aod" if backend == "atlas" else "atlas"
                 md = collection_md(other)
         out.append((name, q.replace("{md}", repr(md))))
+    if backend == "atlas":
+        js = lambda script, dep: {"metadata_type": "add_job_script", "name": "blk", "script": script, "depends_on": dep}  # noqa: E731
+        for nm, a, b2 in (("md_job_script_conflicting_duplicate", js(["line_a"], []), js(["line_b"], [])),
+                          ("md_job_script_duplicate_missing_dep", js(["line_a"], []), js(["line_a"], ["never_sent"])),
+                          ("md_job_script_duplicate_cycle", js(["line_a"], []), js(["line_a"], ["blk"]))):
+            out.append((nm, f"Select(MetaData(MetaData(ds, {a!r}), {b2!r}), lambda e: e.{c}('A').Count())"))
+            out.append((nm + "_far_apart", f"Select(MetaData(Where(MetaData(ds, {a!r}), lambda e: e.{c}('A').Count() > 0), {b2!r}), lambda e: e.{c}('A').Count())"))
     # metadata deep in the chain / after other valid metadata
     out.append(("md_unknown_after_valid", f"Select(MetaData(MetaData(ds, {{'metadata_type': 'inject_code', 'name': 'ok', 'body_includes': ['a.h']}}), {{'metadata_type': 'bogus'}}), lambda e: e.{c}('A').Count())"))
     out.append(("md_unknown_on_outer", f"MetaData(Select(ds, lambda e: e.{c}('A').Count()), {{'metadata_type': 'bogus'}})"))
